@@ -11,16 +11,23 @@ from lenflow import State
 from stubs import ABS
 
 
-def tainted(x, depth=0):
-    """does a token value/descriptor contain a position-tainted integer?"""
+def tainted(x, depth=0, syms=()):
+    """does a token value/descriptor contain a position-tainted integer, or a length / offset expression over the
+    absolute writer position (or over a loop-carried value that started out position dependent)?"""
     if depth > 6:
         return False
     if isinstance(x, (VInt, VBool)):
-        return bool(x.taint)
+        return bool(x.taint) or (isinstance(x, VInt) and tainted(x.lin, depth + 1, syms))
+    if isinstance(x, Lin):
+        # absolute positions: the writer's position on entry, its loop-carried position, values derived from them.
+        # An expression is position independent iff shifting every absolute position by the same amount leaves it
+        # unchanged, i.e. the coefficients of the absolute symbols sum to zero (end - start is fine, 1023 - len is not)
+        tot = sum(k for s, k in x.t.items() if s == "W(writer.*)" or s in syms or (s.startswith("h[") and s.endswith(".W]")))
+        return tot != 0
     if isinstance(x, (tuple, list)):
-        return any(tainted(y, depth + 1) for y in x)
+        return any(tainted(y, depth + 1, syms) for y in x)
     if isinstance(x, VArr) and x.elems:
-        return any(tainted(y, depth + 1) for y in x.elems)
+        return any(tainted(y, depth + 1, syms) for y in x.elems)
     return False
 
 
@@ -37,14 +44,14 @@ def analyse_entry(chk, fx, name, f, config, own_writer=False):
         label = eng.callee_label(t["func"])
         eng.oblig("patch-lower", frame, bb, label, ok, st,
                   None if ok else "overwrite offset %r not proven >= %r (start of the value being encoded)" % (off.lin, lower), t.get("ln"))
-        bad = tainted(d)
+        bad = tainted(d, 0, getattr(eng, "tainted_syms", ()))
         eng.oblig("taint-token", frame, bb, label, not bad, st,
                   None if not bad else "overwritten octets depend on an absolute writer position", t.get("ln"))
 
     def on_w(st, site, wid, item, val):
         stats["tokens"] += 1
         frame, bb, t = site
-        bad = tainted(val)
+        bad = tainted(val, 0, getattr(eng, "tainted_syms", ()))
         eng.oblig("taint-token", frame, bb, eng.callee_label(t["func"]), not bad, st,
                   None if not bad else "emitted octets depend on an absolute writer position (%r)" % (val,), t.get("ln"))
 
